@@ -14,7 +14,7 @@ from refmodel import element_rules as R
 ENVELOPE = ('ISA', 'GS', 'ST', 'SE', 'GE', 'IEA', 'TA1')
 ELEMENT_KINDS = ['too_long', 'too_short', 'bad_code', 'bad_class', 'bad_date', 'bad_time', 'missing_required_ele',
                  'not_used_ele', 'too_many_ele', 'too_many_comp', 'syntax_note', 'comp_in_simple', 'missing_required_comp']
-SEGMENT_KINDS = ['missing_required_seg', 'unknown_seg', 'misplaced_seg', 'seg_over_max', 'loop_over_max']
+SEGMENT_KINDS = ['missing_required_seg', 'unknown_seg', 'misplaced_seg', 'seg_over_max', 'loop_over_max', 'missing_required_loop']
 PRIMARY = {'too_long': '5', 'too_short': '4', 'bad_code': '7', 'bad_class': '6', 'bad_date': '8', 'bad_time': '9',
            'missing_required_ele': '1', 'not_used_ele': '*', 'too_many_ele': '3', 'too_many_comp': '3'}
 
@@ -361,6 +361,38 @@ def segment_faults(m, doc, rng, kinds):
                     ctx = 'before-SE'
                 out.append({'kind': 'missing_required_seg', 'line': line, 'op': 'delete', 'code': '3', 'neutral': True,
                             'seg_id': seg['id'], 'ele': None, 'comp': None, 'value': None, 'ref': None, 'ctx': ctx, 'slack': slack})
+        if 'missing_required_loop' in kinds and first_of_loop and parent.usage == 'R' and parent.type != 'wrapper' \
+                and parent.id not in ('ISA_LOOP', 'GS_LOOP', 'ST_LOOP') and seg['id'] not in ('HL', 'LX', 'CLM', 'BHT') \
+                and parent.parent is not None and parent.parent.kind == 'loop':
+            # the whole (only) instance of a required loop inside its parent instance
+            a_, b_ = set_bounds(doc, line)
+            end = line + 1
+            while end < b_ and _inside(m, doc[end], parent) and doc[end].get('opens') != seg['opens']:
+                end += 1
+            gp = parent.parent
+            # extent of the enclosing instance of the grandparent: back to its opener, forward to its next opener / first segment outside
+            lo = line
+            while lo > a_ and not (doc[lo].get('opens') == gp.uid):
+                lo -= 1
+            hi = end
+            while hi < b_ and _inside(m, doc[hi], gp) and doc[hi].get('opens') != gp.uid:
+                hi += 1
+            others = [k for k in range(lo, hi) if k != line and doc[k]['uid'] == seg['uid']]
+            inner_numbered = any(doc[k]['id'] in ('HL', 'LX') for k in range(line, end))
+            if not others and not inner_numbered and end < len(doc) and doc[end]['id'] != 'SE' and (gp.type == 'wrapper' or doc[lo].get('opens') == gp.uid):
+                slack = 0
+                k = end
+                while k < hi and doc[k]['id'] not in ENVELOPE:
+                    top = node_of(m, doc[k])
+                    while top is not None and top.parent is not gp:
+                        top = top.parent
+                    if top is None or top.pos != parent.pos:
+                        break
+                    slack += 1
+                    k += 1
+                out.append({'kind': 'missing_required_loop', 'line': line, 'op': 'delete_n', 'n': end - line, 'code': '3', 'neutral': True,
+                            'seg_id': seg['id'], 'ele': None, 'comp': None, 'value': None, 'ref': None, 'slack': slack,
+                            'ctx': 'parent-repeats' if end < len(doc) and doc[end].get('opens') == gp.uid else 'loop'})
         if 'seg_over_max' in kinds and not first_of_loop and node.max_repeat() <= 3 and len(same_node_lines) == node.max_repeat() \
                 and line == same_node_lines[-1] and seg['id'] not in ('HL', 'LX', 'CLM', 'BHT'):
             out.append({'kind': 'seg_over_max', 'line': line, 'op': 'insert_after', 'new_segs': [copy.deepcopy(seg)], 'code': '5',
@@ -516,6 +548,10 @@ def apply_fault(doc, f):
         del d[line]
         delta = -1
         where = line            # the next segment now sits at this index
+    elif f['op'] == 'delete_n':
+        del d[line:line + f['n']]
+        delta = -f['n']
+        where = line
     else:
         new = [dict(s, vals=copy.deepcopy(s['vals'])) for s in f['new_segs']]
         d[line + 1:line + 1] = new
